@@ -69,7 +69,9 @@ func NewVoteDriver(n int, symmetry bool, full bool) *VoteDriver {
 	d := &VoteDriver{N: n, Symmetry: symmetry, MaxAdv: 3}
 	// alphaShrink drops the last key (under the symmetry reduction: the member that votes last), alphaDrop0 the first
 	// one (the member that votes first): together they cover "a voter leaves" and "a non-voter leaves"
-	kinds := []string{"setA", "setB", "cheque", "alphaUpd", "alphaShrink", "alphaDrop0", "candRm"}
+	// chequeBig asks for more than the contract holds: the invocation that completes the decision faults, the vote
+	// it carried is rolled back with it and the ballot stays one short
+	kinds := []string{"setA", "setB", "cheque", "chequeBig", "alphaUpd", "alphaShrink", "alphaDrop0", "candRm"}
 	deltas := []uint32{1, 19, 20, 21}
 	if !full {
 		kinds = []string{"setA", "setB", "cheque"}
@@ -162,6 +164,8 @@ func (d *VoteDriver) OpName(_ *Node, i int) string {
 		return "setConfig(idB,k,v2) by " + d.who(o.who)
 	case "cheque":
 		return "cheque(idC,U,5) by " + d.who(o.who)
+	case "chequeBig":
+		return "cheque(idG,U,more than the contract holds) by " + d.who(o.who)
 	case "alphaUpd":
 		return "alphabetUpdate(idD,rotated list) by " + d.who(o.who)
 	case "alphaShrink":
@@ -224,6 +228,9 @@ func (d *VoteDriver) Step(x *Exec, n *Node, i int) StepResult {
 	case "cheque":
 		id = "idC"
 		scr = Script(h, "cheque", voteID(id), d.u.Hash, int64(5), []byte("lock"))
+	case "chequeBig":
+		id = "idG"
+		scr = Script(h, "cheque", voteID(id), d.u.Hash, int64(2*c17Deposit), []byte("lock"))
 	case "alphaUpd":
 		id = "idD"
 		rotated = append(append([]int{}, m.alpha[1:]...), m.alpha[0])
@@ -294,6 +301,11 @@ func (d *VoteDriver) Step(x *Exec, n *Node, i int) StepResult {
 			}
 		}
 	}
+	if fired && o.kind == "chequeBig" {
+		// the payment cannot be made: the whole invocation faults, nothing of it stays (not even the vote)
+		fired, expHalt = false, false
+		nm = m.Clone().(*voteModel)
+	}
 	if fired {
 		switch o.kind {
 		case "setA":
@@ -324,7 +336,7 @@ func (d *VoteDriver) Step(x *Exec, n *Node, i int) StepResult {
 	if !isMember && o.who != -2 || (o.who == -2 && o.kind != "candRm") {
 		// anybody else is rejected and never counts
 		if obs.Halt || len(diff) > 0 {
-			where["method"] = map[string]string{"setA": "setConfig", "setB": "setConfig", "cheque": "cheque", "alphaUpd": "alphabetUpdate", "alphaShrink": "alphabetUpdate", "alphaDrop0": "alphabetUpdate", "candRm": "innerRingCandidateRemove"}[o.kind]
+			where["method"] = map[string]string{"setA": "setConfig", "setB": "setConfig", "cheque": "cheque", "chequeBig": "cheque", "alphaUpd": "alphabetUpdate", "alphaShrink": "alphabetUpdate", "alphaDrop0": "alphabetUpdate", "candRm": "innerRingCandidateRemove"}[o.kind]
 			return viol("stranger-vote-counted", fmt.Sprintf("%s: halt=%v, storage diff %v", d.OpName(n, i), obs.Halt, diff))
 		}
 		nn.M = m
